@@ -103,6 +103,24 @@ def run(pid, tier, seed, replay=None):
                 s += ch
             s = s.strip(" ") or "z"
             items.append({"id": len(items), "seg": s, "where": uni.POSITIONS[k % len(uni.POSITIONS)], "convert": conv, "pred_us": None})
+        # homogeneous texts: every character satisfies one of Python's string predicates (a shortcut that tests the whole
+        # text - "a plain number", "only letters", "only blanks" - must still escape what is not ASCII)
+        preds = ["isdigit", "isdecimal", "isnumeric", "isalpha", "isupper", "islower", "isalnum", "isidentifier", "istitle"]
+        cands = [c for c in list(range(0xA0, 0x3100)) + list(range(0xFF00, 0xFFF0)) + list(range(0x1D400, 0x1D800)) + list(range(0x1F100, 0x1F200))
+                 if uni.is_testable(c) and chr(c) not in FORBIDDEN_CONV]
+        nh = 0
+        for pi, pred in enumerate(preds):
+            pool = [c for c in cands if getattr(chr(c), pred)()]
+            if not pool:
+                continue
+            for k in range(max(6, plan["strings"] // 10)):
+                n = 1 + (k % 3)
+                t = "".join(chr(rng.choice(pool)) for _ in range(n))
+                if k % 4 == 3 and n >= 2:
+                    t = t[0] + rng.choice(".,") + t[1:]
+                items.append({"id": len(items), "seg": t, "where": uni.POSITIONS[(k + pi) % len(uni.POSITIONS)], "convert": k % 2 == 0, "pred_us": None, "bare": True})
+                nh += 1
+        ctx.extra["homogeneous_texts"] = nh
         recs = pmap(uni.run_position, items, chunk=8)
         nd = 0
         for it, r in zip(items, recs):
